@@ -289,6 +289,12 @@ def c04(R):
                 else: s2 = RVI(Forest(S=5), epsilon=eps, verbose=0, checkpoint_dir=d + "_l", checkpoint_frequency=1); s2.load_checkpoint(d)
                 st2 = s2.solve(2000)
                 if not (abs(float(st2.info.gain) - gref) < eps * (1 + 1e-6) + 1e-9): R.fail("c04.gain_after_restore", f"{how}() at iteration k followed by solve() reports a gain that is not within epsilon of the one an uninterrupted run reports", dict(inp, how=how), float(st2.info.gain), gref)
+        # a solver OBJECT that has already converged, rewound with load_checkpoint() to an early step and solved again (run-time state that a load does not re-initialise)
+        d = os.path.join(base, "rw"); s3 = RVI(Forest(S=5), epsilon=eps, verbose=0, checkpoint_dir=d, checkpoint_frequency=1, max_checkpoints=nref + 5, enable_async_checkpointing=False); s3.solve(2000)
+        inp = dict(problem="Forest(S=5)", epsilon=eps, history="solve() to convergence; load_checkpoint(step=1) into the same object; solve()", reference_gain=gref); R.case(("rewound",), inp)
+        s3.load_checkpoint(d, step=1); st3 = s3.solve(2000)
+        if int(st3.info.iteration) < 1 + 2000 and not (abs(float(st3.info.gain) - gref) < eps * (1 + 1e-6) + 1e-9):
+            R.fail("c04.gain_after_restore", "a converged solver rewound to step 1 with load_checkpoint() and solved again reports a gain that is not within epsilon of the optimal average reward", inp, float(st3.info.gain), gref)
     finally:
         shutil.rmtree(base, ignore_errors=True)
     return R
@@ -428,6 +434,11 @@ def c07(R):
                 d = os.path.join(base, f"p{P}_{back}"); s3 = mk(checkpoint_dir=d, checkpoint_frequency=1, max_checkpoints=2, enable_async_checkpointing=False); s3.solve(k)
                 r3 = PVI.restore(d, new_checkpoint_dir=d + "_r"); st3 = r3.solve(400)
                 if int(st3.info.iteration) != nstar or not close(st3.values, Vstar, 1e-9): R.fail("c07.stop_rule_after_restore", "a solver restored at iteration k and continued stops at another iteration than the documented first n >= period with the measure below epsilon", inp, int(st3.info.iteration), nstar)
+            # ... and a solver OBJECT that has already stopped, rewound with load_checkpoint() to an early step and solved again: same documented stop
+            d = os.path.join(base, f"rw{P}"); s4 = mk(checkpoint_dir=d, checkpoint_frequency=1, max_checkpoints=nstar + 5, enable_async_checkpointing=False); s4.solve(400)
+            k4 = max(1, nstar // 2); inp = dict(problem="Forest(S=12,r1=40,p=0.05)", period=P, gamma=g, epsilon=1e-3, documented_stop=nstar, history=f"solve() to the stop; load_checkpoint(step={k4}) into the same object; solve()"); R.case(("rewound", P, g), inp)
+            s4.load_checkpoint(d, step=k4); st4 = s4.solve(400)
+            if int(st4.info.iteration) != nstar or not close(st4.values, Vstar, 1e-9): R.fail("c07.stop_rule_after_restore", "a stopped solver rewound with load_checkpoint() and solved again stops at another iteration than the documented one", inp, int(st4.info.iteration), nstar)
         # ... and taken over with load_checkpoint() by a solver that was constructed with ANOTHER period (it adopts the saved period)
         for g in (0.95, 1.0):
             mk4 = lambda **kw: PVI(Forest(S=6), period=4, gamma=g, epsilon=1e-5, verbose=0, clear_value_history_on_convergence=False, **kw)
